@@ -209,6 +209,8 @@ Definition drain_done (w : writer) : wpc := if sd w then WSdFlush else WHandle.
 Definition no_appenders (c : config) (Sh : shared) : bool :=
   (handles Sh =? 0) && negb (extra_clone c).
 
+Definition is_drained (d : dresult) : bool := match d with Drained => true | HitDeadline => false end.
+
 Definition wstep (c : config) (s : state) (o : oracle) : option state :=
   let Sh := sh s in let W := wr s in let G := gh s in
   match pc W with
@@ -224,60 +226,54 @@ Definition wstep (c : config) (s : state) (o : oracle) : option state :=
     | Some e =>
       if rep_allowed c o then
         let evs := ENext e (o_res o) :: match o_rep o with Some r => [EReport r] | None => [] end in
-        let cnt := S (count W) in
-        let hit := (Nat.modulo cnt 32 =? 0) && o_dl o in
-        let W1 := set_count (set_inflight W None) cnt in
-        Some {| sh := Sh;
-                wr := if hit then set_pc (set_dres W1 HitDeadline) (drain_done W) else set_pc W1 WPop;
-                gh := set_sdhit (add_out G evs) (sdhit G || (hit && sd W)) |}
+        let W1 := set_count (set_inflight W None) (S (count W)) in
+        (* `count % 32 == 0 && now >= deadline` *)
+        if (Nat.modulo (S (count W)) 32 =? 0) && o_dl o then
+          Some {| sh := Sh; wr := set_pc (set_dres W1 HitDeadline) (drain_done W);
+                  gh := set_sdhit (add_out G evs) (sdhit G || sd W) |}
+        else
+          Some {| sh := Sh; wr := set_pc W1 WPop; gh := add_out G evs |}
       else None
     end
   | WHandle =>
     (* first half of handle_waiting_wakers *)
-    let '(W1, evs) :=
-      match waiting W with
-      | [] => (W, [])
-      | _ :: _ =>
-        let e1 := ebw W - count W in
-        if (e1 =? 0) || match dres W with Drained => true | HitDeadline => false end
-        then (set_ebw (set_waiting W []) 0, EFlush (o_fl o) :: map EWake (waiting W))
-        else (set_ebw W e1, [])
-      end in
-    Some {| sh := Sh;
-            wr := set_pc W1 (if is_nil (waiting W1) then WRecv else after_handle W1);
-            gh := add_out G evs |}
+    if is_nil (waiting W) then Some {| sh := Sh; wr := set_pc W WRecv; gh := G |}
+    else if (ebw W - count W =? 0) || is_drained (dres W) then
+      Some {| sh := Sh; wr := set_pc (set_ebw (set_waiting W []) 0) WRecv;
+              gh := add_out G (EFlush (o_fl o) :: map EWake (waiting W)) |}
+    else Some {| sh := Sh; wr := set_pc (set_ebw W (ebw W - count W)) (after_handle W); gh := G |}
   | WRecv =>
+    (* second half: `while let Ok(w) = try_recv()`, then `entries_before_wake = capacity` *)
     match fch Sh with
     | w :: r => Some {| sh := set_fch Sh r; wr := set_waiting W (waiting W ++ [w]); gh := G |}
-    | [] => Some {| sh := Sh;
-                    wr := set_pc (if is_nil (waiting W) then W else set_ebw W (cap c)) (after_handle W);
-                    gh := G |}
+    | [] =>
+      if is_nil (waiting W) then Some {| sh := Sh; wr := set_pc W (after_handle W); gh := G |}
+      else Some {| sh := Sh; wr := set_pc (set_ebw W (cap c)) (after_handle W); gh := G |}
     end
   | WCheckSd1 =>
-    Some {| sh := Sh;
-            wr := set_pc W (if shutdown Sh then WOuterFlush
-                            else if is_nil (waiting W) then WPark else WCheckTime);
-            gh := G |}
+    if shutdown Sh then Some {| sh := Sh; wr := set_pc W WOuterFlush; gh := G |}
+    else if is_nil (waiting W) then Some {| sh := Sh; wr := set_pc W WPark; gh := G |}
+    else Some {| sh := Sh; wr := set_pc W WCheckTime; gh := G |}
   | WPark =>
     (* park_deadline: consume the token if present; return at once if the deadline passed; else block *)
     if token Sh then Some {| sh := set_token Sh false; wr := set_pc W WCheckTime; gh := G |}
-    else Some {| sh := Sh; wr := set_pc W (if o_dl o then WCheckTime else WParked); gh := G |}
+    else if o_dl o then Some {| sh := Sh; wr := set_pc W WCheckTime; gh := G |}
+    else Some {| sh := Sh; wr := set_pc W WParked; gh := G |}
   | WParked =>
     if token Sh then Some {| sh := set_token Sh false; wr := set_pc W WCheckTime; gh := G |}
     else if o_dl o then Some {| sh := Sh; wr := set_pc W WCheckTime; gh := G |}
     else None
   | WCheckTime =>
-    Some {| sh := Sh; wr := if o_dl o then set_pc W WOuterFlush else set_pc (set_count W 0) WPop; gh := G |}
+    if o_dl o then Some {| sh := Sh; wr := set_pc W WOuterFlush; gh := G |}
+    else Some {| sh := Sh; wr := set_pc (set_count W 0) WPop; gh := G |}
   | WOuterFlush =>
     Some {| sh := Sh; wr := set_pc W WCheckSd2; gh := add_out G [EFlush (o_fl o)] |}
   | WCheckSd2 =>
-    Some {| sh := Sh;
-            wr := if shutdown Sh then set_pc (set_count (set_sd W true) 0) WPop else set_pc W WCheckApp;
-            gh := G |}
+    if shutdown Sh then Some {| sh := Sh; wr := set_pc (set_count (set_sd W true) 0) WPop; gh := G |}
+    else Some {| sh := Sh; wr := set_pc W WCheckApp; gh := G |}
   | WCheckApp =>
-    Some {| sh := Sh;
-            wr := set_pc (set_count (if no_appenders c Sh then set_sd W true else W) 0) WPop;
-            gh := G |}
+    if no_appenders c Sh then Some {| sh := Sh; wr := set_pc (set_count (set_sd W true) 0) WPop; gh := G |}
+    else Some {| sh := Sh; wr := set_pc (set_count W 0) WPop; gh := G |}
   | WSdFlush => Some {| sh := Sh; wr := set_pc W WSdDrop; gh := add_out G [EFlush (o_fl o)] |}
   | WSdDrop => Some {| sh := Sh; wr := set_pc W WExit; gh := add_out G [EDropStream] |}
   | WExit =>
@@ -326,3 +322,7 @@ Definition opt_list {T} (o : option T) : list T := match o with Some x => [x] | 
 Fixpoint count_over (o : list ev) : nat :=
   match o with [] => 0 | EOver :: r => S (count_over r) | _ :: r => count_over r end.
 Definition by_thread (t : tid) (l : list ent) : list ent := filter (fun e => N.eqb (fst e) t) l.
+
+(* the entries appended, in the linearisation order of their force_push, read off a schedule *)
+Fixpoint pushes (ls : list label) : list ent :=
+  match ls with [] => [] | LPush t n :: r => (t, n) :: pushes r | _ :: r => pushes r end.
